@@ -175,7 +175,15 @@ def is_idrefs(value: Optional[str]) -> bool:
 
 ###
 # Operators
-node_position = operator.attrgetter('position')
+def node_position(node: Any) -> tuple[int, int]:
+    """
+    Sort key for the document order of nodes: the nodes of a tree are ordered by position,
+    the nodes of distinct trees are kept apart (XDM 2.4: if a node of T1 is before a node
+    of T2 then every node of T1 is before every node of T2), in an implementation-dependent
+    order that does not change while the trees are alive.
+    """
+    tree = getattr(node, 'tree', None)  # element and document nodes (also a dummy document)
+    return id(node.root_node if tree is None else tree.root_node), node.position
 
 
 def reversed_sub(a: Any, b: Any) -> Any:
